@@ -13,6 +13,7 @@ mod c08;
 mod c09;
 mod c13;
 mod c14;
+mod c15;
 mod c16;
 mod c17;
 mod c12;
@@ -66,6 +67,7 @@ fn run(name: &str, args: &Value) -> Value {
         "c05_drop_full_queue" => c05::drop_full_queue(args),
         "c13_registry" => c13::registry(args),
         "c17_roundtrip" => c17::roundtrip(args),
+        "c15_response" => c15::response(args),
         "c16_sequence" => c16::sequence(args),
         "c16_whole" => c16::whole(args),
         "c14_ports" => c14::ports(args),
